@@ -7,7 +7,7 @@ from protocol import from_real
 import h1tok_util as H
 
 ID = "C03"
-LEAN_MODULE = ["SCoda.Props.C01", "SCoda.Props.C01b", "SCoda.Props.C03b", "SCoda.Props.C10", "SCoda.Props.C03c", "SCoda.Props.TokTie", "SCoda.Props.C03e", "SCoda.Props.C03f"]
+LEAN_MODULE = ["SCoda.Props.C01", "SCoda.Props.C01b", "SCoda.Props.C03b", "SCoda.Props.C10", "SCoda.Props.C03c", "SCoda.Props.TokTie", "SCoda.Props.TokTie2", "SCoda.Props.TokTie3", "SCoda.Props.C03e", "SCoda.Props.C03f"]
 LEVEL = "proof"
 CLAUSES = [
     ("two consecutive calls threading the state emit (notes and bar ends) exactly what one call on the joined events emits; "
@@ -30,8 +30,8 @@ CLAUSES = [
     ("glue: where a call ends — on the onset of its last event if that is a bar line, else at the end of the bar containing it; hence a call on whole bars "
      "ends at the end of its last bar unless nothing in that bar moves the clock off the bar line (partial: known finding D19, refuted in general by a kernel-checked example)",
      ["SCoda.C01.call_end", "SCoda.C01.call_end_tokenise", "SCoda.C01.foldClock_cur", "SCoda.C01.call_stalls_on_barline"]),
-    ("TIE BY TRANSLATION, tokeniser: MultiTrackLargeVocabularyNotelikeTokeniser is re-translated statement by statement on every run (Gen/TokFns.lean, tools/py2lean_tok.py: __init__, _construct_dictionary, tokenise with its closure _apply_rest as a fuelled loop, detokenise, get_info, encode, decode; f-strings as string concatenation, dicts as association lists, floats as exact rationals) and each translation is proved equal to the hand model the theorems above are about, on rendered token strings: a call with a state dictionary is tokeniseCore started from the state read out of the dictionary, and writes the model's final state back into it; a call without one starts from the initial state",
-     ["SCoda.TokTie.tokenise_eq", "SCoda.TokTie.tokenise_eq'", "SCoda.TokTie.tokenise_fresh", "SCoda.TokTie.tokenise_fresh'", "SCoda.TokTie.tokenise_none", "SCoda.TokTie.stOfDict_nil", "SCoda.TokTie.tokenise_wrong_length", "SCoda.TokTie.tokenise_zero_denominator"]),
+    ("TIE BY TRANSLATION, tokeniser: MultiTrackLargeVocabularyNotelikeTokeniser is re-translated statement by statement on every run (Gen/TokFns.lean, tools/py2lean_tok.py: __init__, _construct_dictionary, tokenise with its closure _apply_rest as a fuelled loop, detokenise, get_info, encode, decode; f-strings as string concatenation, dicts as association lists, floats as exact rationals) and each translation is proved equal to the hand model the theorems above are about, on rendered token strings: a call with a state dictionary (default flags insert_bar_token = True, flag_running_time_signature = True: tokenise_defaults; False for the latter raises NotImplementedError: tokenise_not_running; the hand model has no insert_bar_token parameter, the theorems above are about the default flags only; insert_bar_token = False is the same call with the bar tokens deleted and the SAME carried state: tokenise_eq_flag_gen, tokenise_no_bar) is tokeniseCore started from the state read out of the dictionary, on extract at the tokeniser's OWN ppqn for every ppqn (tokenise_eq_gen: tracks with non-negative waits and no INTERNAL message, track count = num_tracks, state denominator ≠ 0, 0 ≤ ppqn·4·n, input time signatures with non-zero denominator; the source imputes note-offs with the module constant PPQN, not observable on such tracks: TokPpqnL.extract_ppqn_irrel, observable with a negative wait: negwait_code_vs_model), and writes the model's final state back into it; a call without one starts from the initial state (tokenise_fresh_gen)",
+     ["SCoda.TokTie.tokenise_eq", "SCoda.TokTie.tokenise_eq'", "SCoda.TokTie.tokenise_fresh", "SCoda.TokTie.tokenise_fresh'", "SCoda.TokTie.tokenise_none", "SCoda.TokTie.stOfDict_nil", "SCoda.TokTie.tokenise_wrong_length", "SCoda.TokTie.tokenise_zero_denominator", "SCoda.TokTie2.tokenise_eq_in", "SCoda.TokTie2.tokenise_eq_gen", "SCoda.TokTie2.tokenise_fresh_gen", "SCoda.TokPpqnL.extract_ppqn_irrel", "SCoda.TokTie2.negwait_code_vs_model", "SCoda.TokTie2.tokenise_not_running", "SCoda.TokTie2.tokenise_defaults", "SCoda.TokTie3.tokenise_eq_flag_gen", "SCoda.TokTie3.tokenise_no_bar"]),
     ("glue to the real bars (audit A1 (ii)): for bars returned by sequences_split_bars, what the tokeniser extracts from any run [lo,hi) of them (Bar.to_sequence per track, set_channel, merge, interleaved pairings), cut at the cumulative bar lengths, is a well-formed whole-bar chunk (BarsOk after any running bar length: onsets in time order inside their bar, signatures only on bar lines and equal to the bar's own, every change of bar length announced by a signature event) with one bar per real bar carrying that bar's signature, and laid end to end it is exactly the extracted event list — provided the meta track's signatures are positive (input-level SigsPos) and every bar sequence of the run is a good track on its own (on its track's channel well-formed, no zero-length note; decidable, about the bars); for one-bar runs this is the full glue statement. The unrestricted statement (C03c.extract_wholebars_statement) is refuted: a zero-length note in one bar swallows a later note of the same pitch when the bars are merged in one run but not bar by bar (replayed on the implementation: same output; known finding D18/D18b). NOT proved: for runs of >= 2 bars, that the cut bars have bar by bar the same note events (up to order) as the one-bar runs (SameNotes; fuzzed, 0 failures in 17 000 runs)",
      ["SCoda.C03e.extract_wholebars_statement_false", "SCoda.C03e.d18_facts", "SCoda.C03e.extract_run", "SCoda.C03e.extract_wholebars_bars", "SCoda.C03e.extract_wholebars_partial", "SCoda.C03e.extract_wholebars_onebar", "SCoda.C03e.bars_pos"]),
     ("glue to the real bars, input-level hypotheses only (closes audit A1 (ii)): for tracks that are legal relative views, well-formed, free of zero-length notes and on one channel each, with positive signatures on the meta track, every bar sequence sequences_split_bars returns is a good track on its own, and what the tokeniser extracts from ANY run [lo,hi) of the bars (Bar.to_sequence per track, set_channel, merge, interleaved pairings) is a well-formed whole-bar chunk after any running bar length, one bar per real bar with that bar's signature, which bar by bar has the same lengths and - up to the order of simultaneous events - the same note events as the one-bar runs: exactly the presentation chunked_vs_single is stated for. Hypotheses tested: zero-length notes refute the statement (kernel-checked, same output on the implementation: known finding D18/D18b); a non-positive or too short signature (0/4, 1/128 at ppqn 24) on a silent piece yields a zero-length bar (kernel-checked, same on the implementation); 0 < ppqn follows from the signature condition; one channel per track is a need of the proof, no counter-example known",
